@@ -73,6 +73,7 @@ type introspectionVisitor struct {
 
 func (i *introspectionVisitor) EnterDocument(operation, definition *ast.Document) {
 	i.data.Schema = NewSchema()
+	i.queryTypeName, i.mutationTypeName, i.subscriptionTypeName = "", "", ""
 }
 
 func (i *introspectionVisitor) LeaveDocument(operation, definition *ast.Document) {
